@@ -123,6 +123,7 @@ pub fn run(args: &[String]) {
         let mut vars: Vec<Variant> = vec![];
         let mut seen: std::collections::HashMap<(usize, String), usize> = Default::default();
         let mut first_of: Vec<Option<usize>> = vec![None; nstates];
+        set_clock(0);
         let init = Inst::new(kind, to, false);
         seen.insert((0, init.fingerprint(cap)), 0);
         first_of[0] = Some(0);
